@@ -1,7 +1,108 @@
-/- stub: overwritten by the builder of this engine -/
-import Driver.Common
-open Lean FV FV.Drv
+/-
+Driver for the generator model (`Model/Gen.lean`).
 
-def handle (_ : Json) : Except String Json := throw "driver not implemented"
+gtree := ["l", [code units], ro] | ["n", sym, ro, [gtree…], [gtree… (sources)]]
+spec  := {"gens": [[sym, [param…]]…]}
+log   := [[sym, [[units]…], [units]]…]
+
+  {"op":"inv","spec":S,"log":L,"path":[…],"tree":T} → {"ok":bool,"bad":[[steps…], verdict]|null}
+        steps: 2*i = child i, 2*i+1 = source i; verdict 1 = text not a logged return value for the recorded
+        arguments, 2 = generated children writable, 3 = argument missing
+  {"op":"generate","spec":S,"sym":s,"srcs":[T…],"value":[units],"parsed":[T…]|null}
+        → {"tree":T,"entry":[sym,args,value]} | {"err":"noGenerator"|"missingParam"|"parseError"}
+  {"op":"fuzzgen", …same…}    the generator branch of NonTerminalNode.fuzz
+  {"op":"regen", …same…, "ro":bool}   regen_children branch, marking as the CURRENT source does
+        (Generated.regenMarksReadOnly)
+  {"op":"replace","tree":T,"path":[…],"repl":T} → {"tree":T}
+-/
+import Driver.Common
+import Model.Gen
+import Generated.GenFlags
+open Lean FV FV.Drv FV.Gen
+
+namespace FV.Drv
+
+def boolOfJ (j : Json) : Except String Bool :=
+  match j with
+  | Json.bool b => pure b
+  | _ => throw "expected a boolean"
+
+partial def gtreeOf (j : Json) : Except String GTree := do
+  let a ← j.getArr?
+  let tag ← (a[0]?.getD Json.null).getStr?
+  let el (i : Nat) : Json := a[i]?.getD Json.null
+  match tag with
+  | "l" => return .leaf (← natArr (el 1)) (← boolOfJ (el 2))
+  | "n" =>
+    let ks ← (← (el 3).getArr?).toList.mapM gtreeOf
+    let ss ← (← (el 4).getArr?).toList.mapM gtreeOf
+    return .node (← (el 1).getStr?) (← boolOfJ (el 2)) ks ss
+  | _ => throw s!"bad gtree tag {tag}"
+
+partial def jGTree : GTree → Json
+  | .leaf v r => Json.arr #["l", jNats v, Json.bool r]
+  | .node s r ks ss => Json.arr #["n", Json.str s, Json.bool r, Json.arr (ks.map jGTree).toArray,
+      Json.arr (ss.map jGTree).toArray]
+
+def specOf (j : Json) : Except String Spec := do
+  let gs ← (← j.getObjVal? "gens").getArr?
+  let gens ← gs.toList.mapM (fun r => do
+    let a ← r.getArr?
+    let ps ← (← (a[1]?.getD Json.null).getArr?).toList.mapM (fun x => x.getStr?)
+    pure ((← (a[0]?.getD Json.null).getStr?), ps))
+  return { gens := gens }
+
+def entryOf (j : Json) : Except String LogEntry := do
+  let a ← j.getArr?
+  let args ← (← (a[1]?.getD Json.null).getArr?).toList.mapM natArr
+  return ⟨← (a[0]?.getD Json.null).getStr?, args, ← natArr (a[2]?.getD Json.null)⟩
+
+def jEntry (e : LogEntry) : Json :=
+  Json.arr #[Json.str e.sym, Json.arr (e.args.map jNats).toArray, jNats e.value]
+
+def jErr' : FV.Gen.Err → Json
+  | .noGenerator => Json.mkObj [("err", "noGenerator")]
+  | .missingParam => Json.mkObj [("err", "missingParam")]
+  | .parseError => Json.mkObj [("err", "parseError")]
+
+end FV.Drv
+
+def handle (j : Json) : Except String Json := do
+  let op ← j.getObjValAs? String "op"
+  match op with
+  | "inv" =>
+    let S ← specOf (← j.getObjVal? "spec")
+    let log ← (← (← j.getObjVal? "log").getArr?).toList.mapM entryOf
+    let path ← (← (← j.getObjVal? "path").getArr?).toList.mapM (fun x => x.getStr?)
+    let t ← gtreeOf (← j.getObjVal? "tree")
+    let bad := match firstBad S log path t with
+      | none => Json.null
+      | some (p, v) => Json.arr #[jNats p, Json.num (JsonNumber.fromNat v)]
+    return Json.mkObj [("ok", Json.bool (genInvB S log path t)), ("bad", bad)]
+  | "generate" | "fuzzgen" | "regen" =>
+    let S ← specOf (← j.getObjVal? "spec")
+    let s ← j.getObjValAs? String "sym"
+    let srcs ← (← (← j.getObjVal? "srcs").getArr?).toList.mapM gtreeOf
+    let v ← natArr (← j.getObjVal? "value")
+    let parsed ← match (← j.getObjVal? "parsed") with
+      | Json.null => pure none
+      | x => do pure (some (← (← x.getArr?).toList.mapM gtreeOf))
+    -- the real parser's answer for exactly this (symbol, value); anything else is not a call of this run
+    let parse : Parser := fun s' v' => if s' == s && v' == v then parsed else none
+    let res ← match op with
+      | "generate" => pure (generate S parse s srcs v)
+      | "fuzzgen" => pure (fuzzGen S parse s srcs v)
+      | _ => do
+        let ro ← boolOfJ (← j.getObjVal? "ro")
+        pure (regen Generated.regenMarksReadOnly S parse s ro srcs v)
+    match res with
+    | .ok (t, e) => return Json.mkObj [("tree", jGTree t), ("entry", jEntry e)]
+    | .error e => return jErr' e
+  | "replace" =>
+    let t ← gtreeOf (← j.getObjVal? "tree")
+    let p ← natArr (← j.getObjVal? "path")
+    let u ← gtreeOf (← j.getObjVal? "repl")
+    return Json.mkObj [("tree", jGTree (replaceAt t p u))]
+  | _ => throw s!"unknown op {op}"
 
 def main : IO Unit := run handle
